@@ -63,7 +63,7 @@ PKGS = [["p"], ["p", "q"], ["pkg"], ["other", "pkg"], ["g"], ["kg"]]
 NAMES = ["Foo", "XFoo", "FooX", "Bar", "Baz", "Qux", "Foo2", "IFoo", "IBinder", "ParcelFileDescriptor"]
 BUILTINS = ["IBinder", "FileDescriptor", "ParcelFileDescriptor", "ParcelableHolder"]
 MNAMES = ["f", "g", "h", "get", "set", "f2"]
-CODES = ["", "", "", "1", "2", "3", "01", "10", "4294967295", "0", "007", "4294967296", "18446744073709551616",
+CODES = ["", "", "", "1", "2", "3", "01", "10", "010", "09", "0", "00", "4294967295", "0", "007", "4294967296", "18446744073709551616",
          "99999999999999999999999999999999"]
 
 
@@ -365,6 +365,26 @@ def random_perturbations(rng, n):
                 ops.append({"op": "remove", "i": 1, "id": rng.choice(list(files))})
             elif x < 0.65:
                 ops.append({"op": "remove", "i": 1, "id": "extra%d" % rng.randint(0, 2)})
+            elif x < 0.80:
+                # rewrite the IMPORTS of some file (an import added right after the package statement, or one dropped),
+                # keeping its package, name and kind: nothing changes for any other file
+                id_ = rng.choice(list(files))
+                toks = files[id_]
+                try:
+                    semi = next(i for i, t in enumerate(toks) if t[1] == ";")
+                except StopIteration:
+                    continue
+                if any(t[1] == "enum" for t in toks):
+                    continue
+                imp_at = [i for i, t in enumerate(toks) if t[1] == "import"]
+                if imp_at and rng.random() < 0.4:
+                    a0 = rng.choice(imp_at)
+                    b0 = next(i for i in range(a0, len(toks)) if toks[i][1] == ";")
+                    files[id_] = toks[:a0] + toks[b0 + 1:]
+                else:
+                    q_ = rng.choice([["pkg", "Foo"], ["other", "pkg", "Foo"], ["p", "Bar"], ["zz", "Unk"], ["g", "Foo"], ["kg", "Foo"]])
+                    files[id_] = toks[:semi + 1] + [T("import")] + dotted(q_) + [T(";")] + toks[semi + 1:]
+                ops.append({"op": "add", "i": 1, "id": id_, "text": R.text_of(R.default_layout(files[id_]))})
             else:
                 # rewrite the body of some file keeping its header: regenerate members with the same name/kind
                 id_ = rng.choice(list(files))
@@ -425,7 +445,7 @@ HAZARD = ["\u00e9", "\u4e2d", "\U0001F600", "\u0301", "\u00a0", "\u3000", "\u202
 FRAGS = ["package", "import", "interface", "parcelable", "enum", "oneway", "const", "void", "String", "List", "Map",
          "in", "out", "inout", "int", "byte", "true", "false", "CharSequence", "a", "Foo", "p.q", "x1", "_", "@A", "@B(a=1)",
          ";", ",", "{", "}", "(", ")", "[", "]", "<", ">", "=", ".", "-", "1", "99999999999", "18446744073709551616",
-         "= 340282366920938463463374607431768211456;", "\u0663", "x\u0663", "1.5f", "-.5", "\"s\"", "\"",
+         "= 340282366920938463463374607431768211456;", "\u0663", "x\u0663", "1.5f", "-.5", "\"s\"", "\"C:\\\"", "\"",
          "/*", "*/", "/**", "//", "/** d */", "/* c */", "// c\n", "class", "for", "new", "= 9999999999;", "= 9999999999;"]
 
 
